@@ -86,7 +86,10 @@ func (em *emitter) emitNodes(nodes []ast.Node) {
 				// Precompiled packages have been already handled by the type
 				// checker and should be ignored by the emitter.
 				if node.Tree != nil {
+					inURL, isURLSet := em.inURL, em.isURLSet
+					em.inURL, em.isURLSet = false, false
 					inits := em.emitImport(node, true)
+					em.inURL, em.isURLSet = inURL, isURLSet
 					if len(inits) > 0 && !em.alreadyInitializedTemplatePkgs[node.Tree.Path] {
 						for _, initFunc := range inits {
 							index := em.fb.addFunction(initFunc)
